@@ -49,7 +49,8 @@ fn mk(d: &D) -> Datagram {
 
 fn exec(sc: &Scn, render: bool) -> RunOutput {
     let a = SideCfg { opts: opts(2, 1).datagram_buffer_size(4), rng: vec![] };
-    let b = SideCfg { opts: opts(2, 1).datagram_buffer_size(sc.buf), rng: vec![] };
+    // (the accept queue is sized differently from the datagram queue, so that mixing the two options up shows)
+    let b = SideCfg { opts: opts(2, 1).datagram_buffer_size(sc.buf).stream_buffer_size(if sc.buf >= 2 { 1 } else { 4 }), rng: vec![] };
     let mut w = World::two(if sc.cap == 0 { UNBOUNDED_CAP } else { sc.cap }, &a, &b);
     w.spawn_dgram_sender(0, "dgsend.a", sc.list.iter().map(mk).collect(), 0, false);
     if sc.two_readers {
@@ -85,6 +86,17 @@ fn exec(sc: &Scn, render: bool) -> RunOutput {
         if en.is_empty() {
             if sc.late_reader && phase == 0 {
                 phase = 1;
+                // nobody has taken a datagram out yet and nothing is left to run: whatever does not fit has been
+                // discarded, and the stream that shares the connection must be through -- datagrams never block it
+                if sc.with_stream {
+                    let obs = w.obs.borrow();
+                    for dir in 0..2u8 {
+                        let d = obs.dirs.get(&(1, dir)).cloned().unwrap_or_default();
+                        if !(d.shutdown && d.eof && d.read == d.written && !d.written.is_empty()) {
+                            push_viol(&mut viol, "stream.blocked-by-datagrams", format!("a burst of {} datagrams sits unread at the receiver (buffer {}); the system is quiescent and the stream sharing the connection has not completed (dir {dir}: written {} read {} shutdown={} eof={}): it waits for the application to take datagrams out", sc.list.len(), sc.buf, d.written.len(), d.read.len(), d.shutdown, d.eof));
+                        }
+                    }
+                }
                 w.spawn_dgram_receiver(1, "dgrecv.b", usize::MAX, false);
                 continue;
             }
@@ -313,7 +325,7 @@ pub fn run(args: &Args) -> Report {
         ks: if thorough { vec![0, 1, 2, 3, 4] } else { vec![0, 1, 2] },
         env: 0,
         fault: 0,
-        total_wall: Duration::from_secs(if thorough { 1200 } else { 50 }),
+        total_wall: Duration::from_secs(if thorough { 1200 } else { 100 }),
         max_execs_per_case: 1_000_000,
         required_witnesses: W_DROPPED_FULL | W_HOST_TOO_LONG | W_SHORT_PAYLOAD | W_STREAM_DONE | W_ALL_DELIVERED,
         adaptive: thorough,
